@@ -429,6 +429,7 @@ func ruleC17(c *Ctx) {
 	shifts := shiftSites(S)
 	var testLoops []*ssa.BasicBlock // headers of loops iterating over tests (range over bans / functions)
 	nShift := 0
+	seenShiftDesc := map[string]bool{}
 	slideBlocks := map[*ssa.BasicBlock]bool{}
 	for _, sh := range shifts {
 		if sh == sr[0] {
@@ -669,6 +670,13 @@ func ruleC17(c *Ctx) {
 			c.undecided("FRESHCHECK", "tests restarted after a shift whose test was not recognised", sh.Pos(), "the test that guards this shift is neither a search of the window for a text nor a call of a function value on it; which of the recorded findings this is cannot be said")
 			continue
 		}
+		if len(stale) > 0 && seenShiftDesc[testDesc] {
+			// two shifts guarded by the same kind of test (both strands worked out from the element, say): the
+			// names cannot tell them apart, so this one is not matched against the recorded findings
+			c.undecided("FRESHCHECK", "tests restarted after a further shift in "+testDesc, sh.Pos(), "a second shift is guarded by the same kind of test as an earlier one; which of the recorded findings this is cannot be said")
+			continue
+		}
+		seenShiftDesc[testDesc] = true
 		c.check(len(stale) == 0, "FRESHCHECK", "tests restarted after shift in "+testDesc, sh.Pos(), "after this shift every test loop is restarted before the barcode is accepted", "after this shift the barcode can be appended without re-running the tests of "+strings.Join(stale, ", ")+staleNote+": an earlier verdict (ban, reverse complement or filter) is stale for the shifted window")
 	}
 	if nShift == 0 {
